@@ -93,6 +93,16 @@ fn declaration_faults() -> Vec<Item> {
         push(with_extra_decl(empty_proc("q", vec![], vec![]), base_len), base_len);
         push(with_extra_decl(empty_proc("A", vec![], vec![]), at), at);
         push(with_extra_decl(empty_proc("readi", vec![], vec![]), at), at);
+        // ... whose bodies use their own locals (the redeclaration is the only violation)
+        let with_body = |name: &str| RDecl::Proc {
+            name: name.into(),
+            params: vec![RParam { is_ref: true, name: "p".into(), ty: tname("A") }],
+            vars: vec![RVarDecl { name: "k".into(), ty: tname("int") }],
+            body: vec![RStmt::Assign(vname("k"), RExpr::Var(idx(vname("p"), eint(0)))), RStmt::Call("printi".into(), vec![evar("k")])],
+        };
+        push(with_extra_decl(with_body("q"), base_len), base_len);
+        push(with_extra_decl(with_body("printi"), at), at);
+        push(with_extra_decl(with_body("A"), at), at);
         let pi = |n: &str, r: bool, t: RType| RParam { is_ref: r, name: n.into(), ty: t };
         let vi = |n: &str, t: RType| RVarDecl { name: n.into(), ty: t };
         push(with_extra_decl(empty_proc("p", vec![pi("x", false, tname("int")), pi("x", true, tname("int"))], vec![]), at), at);
